@@ -68,7 +68,7 @@ def gen_cases(tier, seed):
             target = base
             multiple = True
         cases.append({"kind": "ph2ph", "crystal": {"name": name, "order": "random", "order_seed": int(rng.integers(1000))}, "smat": base, "target": target,
-                      "multiple": multiple, "pmat": ["P", "centring"][rng.integers(2)], "full": bool(rng.integers(2)), "nac": [None, None, "wang", "gonze"][rng.integers(4)],
+                      "multiple": multiple, "pmat": ["P", "centring"][rng.integers(2)], "full": bool(rng.integers(2)), "nac": [None, None, "wang", "gonze"][rng.integers(4)], "with_nac": bool(rng.integers(3) != 0),
                       "seed": int(rng.integers(10 ** 6)), "_cost": 3 * crystals.natoms(name) * setup.det3(target)})
     return cases
 
@@ -142,7 +142,9 @@ def run_case(c):
     ph.force_constants = np.array(fc if c["full"] else fc[p2s], dtype="double", order="C")
     if c["nac"]:
         ph.nac_params = nacgen.random_nac(ph, rng, method=c["nac"])
-    ph2 = ph.ph2ph(c["target"], with_nac=bool(c["nac"]))
+    with_nac = bool(c["nac"]) and bool(c.get("with_nac", True))
+    ph2 = ph.ph2ph(c["target"], with_nac=with_nac)
+    obs["ph2ph_with_nac_%s" % with_nac] = 1
     # q commensurate with both supercells (harness arithmetic): M1 q and M2 q integral
     M1 = np.rint(sc.cell @ np.linalg.inv(pr.cell)).astype(int)
     M2 = np.rint(ph2.supercell.cell @ np.linalg.inv(ph2.primitive.cell)).astype(int)
@@ -161,9 +163,19 @@ def run_case(c):
         ph_plain.force_constants = np.array(ph.force_constants)
     worst = 0.0
     scale = np.abs(fc).max() / float(np.min(pr.masses))
+    if c["nac"] and not with_nac:
+        # NAC parameters present but not asked for: the result is the plain re-expression, i.e. what the same object without NAC parameters gives
+        ref2 = ph_plain.ph2ph(c["target"])
+        f2, fr = np.array(ph2.force_constants), np.array(ref2.force_constants)
+        obs["ph2ph_plain_on_nac_object"] = 1
+        if ph2.nac_params is not None:
+            viol.append({"kind": "ph2ph", "msg": "ph2ph(with_nac=False) returned an object that carries NAC parameters", "nac": c["nac"], "multiple": c["multiple"], "full": c["full"], "with_nac": False})
+        if f2.shape != fr.shape or not np.abs(f2 - fr).max() <= 1e-10 * np.abs(fr).max():
+            viol.append({"kind": "ph2ph", "msg": "ph2ph(with_nac=False) on an object with %s NAC parameters differs from the re-expression of the same object without them by %.3e (max |fc| %.3e)" % (
+                c["nac"], np.abs(f2 - fr).max() if f2.shape == fr.shape else np.inf, np.abs(fr).max()), "nac": c["nac"], "multiple": c["multiple"], "full": c["full"], "with_nac": False})
     for q in both:
         tol = 1e-9 * scale
-        if c["nac"] == "gonze":
+        if c["nac"] == "gonze" and with_nac:
             # Gonze-Lee's reciprocal sum is not periodic in G: exact only at the first-BZ representative that was used to build it;
             # at the other (tied or outside) representatives it holds to the reciprocal-sum precision only.
             q, nties = nacgen.bz_reduce(q, pr.cell)
